@@ -23,6 +23,8 @@
 pub mod pipeline_gen;
 #[path = "process_kernels.rs"]
 mod kernels;
+#[path = "process_opana.rs"]
+mod opana;
 
 use crate::allocmeter as meter;
 use crate::common::*;
@@ -833,6 +835,8 @@ impl Engine for Process {
         }
         // 4. kernel cases (model-compared)
         kernels::generate(tier, rng, emit);
+        // 5. the crashing-instruction analysis against the model (decoder sweep + random tails)
+        opana::generate(tier, rng, emit);
     }
 
     fn model_request(&self, case: &str) -> Option<String> {
@@ -880,7 +884,10 @@ impl Engine for Process {
             }
             return res;
         }
-        let req = kernels::exec(&f, &mut res);
+        let req = match f.get(1).copied() {
+            Some("opsweep") | Some("opone") => opana::exec(&f, &mut res),
+            _ => kernels::exec(&f, &mut res),
+        };
         LAST.with(|l| *l.borrow_mut() = Some((case.to_string(), req)));
         res
     }
@@ -896,6 +903,22 @@ impl Engine for Process {
                 let c = format!("process op code:{} rsp:4", hex(&code));
                 if still_fails(&c) {
                     return c;
+                }
+            }
+            return case.to_string();
+        }
+        if f.get(1) == Some(&"opsweep") && f.len() == 6 {
+            // name the single instruction
+            let pfx = kv(f[2], "pfx").map(|p| if p == "-" { vec![] } else { unhex(p).unwrap_or_default() }).unwrap_or_default();
+            let map = kv(f[3], "map").unwrap_or("1");
+            let op: u8 = kv(f[4], "op").and_then(|s| s.parse().ok()).unwrap_or(0);
+            let (items, _) = opana::sweep_items(&pfx, map, op, true);
+            for it in items {
+                for p in [it.real.unwrap_or(0), 0, 1, 2] {
+                    let c = format!("process opone code:{} prof:{p}", hex(&it.code));
+                    if still_fails(&c) {
+                        return c;
+                    }
                 }
             }
             return case.to_string();
